@@ -185,5 +185,5 @@ def _calibration(ctx, N, cls):
     ctx.call_method(I, st, o, "_continue_greedy_search", X, vconst(None), integer("S"))
     site3 = ctx.site(P.method(cls, "_continue_greedy_search"))
     ctx.shape_is("R-PADPAIR", "dSL_ re-extended to the new n_to_select on warm start", ctx.attr(st, o, "dSL_"), ("S",), site3)
-    want = T("pad", T("sym", "dSL"), T("tuple", T("const", __import__("fractions").Fraction(0)), T("dim", Dim.of("S") - Dim.of("Q"))))
+    want = T("stack", T("const", __import__("fractions").Fraction(0)), T("sym", "dSL"), T("zeros", T("dim", Dim.of("S") - Dim.of("Q"))))
     ctx.ob("R-PADPAIR", "dSL_ keeps its prefix (zero padding at the end)", N.nf(ctx.attr(st, o, "dSL_").term) == N.nf(want), f"{ctx.attr(st, o, 'dSL_').term!r}", site3)
